@@ -291,13 +291,25 @@ def main(mode):
                 break
         if fail is not None:
             break
+    # listed known finding: the marshal format itself can spell objects that are neither plain data nor in the closed set (a code object, the
+    # StopIteration class object, Ellipsis); marshal.loads hands them back (nothing is executed)
+    KNOWN = []
+    import marshal as _marshal
+    crafted = _marshal.dumps((compile("1+1", "<crafted>", "eval"), StopIteration, Ellipsis))
+    try:
+        runs += 1
+        got = serializers.serializers["marshal"].loads(crafted)
+        if any(type(x).__name__ == "code" for x in got):
+            KNOWN.append("C04-marshal-decodes-code-objects")
+    except Exception:      # noqa
+        pass
     for t in REG_TAGS:
         SerializerBase.unregister_dict_to_class(t)
     try:
         os.rmdir(tmpdir)
     except OSError:
         pass
-    rep = {"runs": runs, "failing_input": fail, "outcomes": stats, "wall_s": round(time.time() - t0, 2),
+    rep = {"runs": runs, "failing_input": fail, "known_findings_reproduced": KNOWN, "outcomes": stats, "wall_s": round(time.time() - t0, 2),
            "bounded": [{"what": "real serializers decoding hostile class-tagged payloads (both paths, each payload twice): reachable types, audit events, "
                                 "whitelist/registry frame, converter called for exactly its tag",
                         "bound": "%d tags x %d bodies x (str, bytes tag) x %d serializers x 2 paths x 2 attempts" % (len(all_tags), len(bodies("t", marker)), len(sers)),
